@@ -24,6 +24,10 @@ type Layout struct {
 	// PadLast > 0 (with NoFinalNewline): blanks after the last ';' bring the length of the last
 	// line to the next multiple of PadLast (a line that fills the reader's buffer exactly)
 	PadLast int `json:"pad_last,omitempty"`
+	// AfterTips (with BreakAfterComma): one tip per line - a line end follows every tip name too
+	AfterTips bool `json:"after_tips,omitempty"`
+	// ENum: numbers in exponent notation with an upper-case E (1.0E-4, as Java programs print them)
+	ENum bool `json:"enum,omitempty"`
 }
 
 // MultiNewick lays out the trees one record per ';' at a line end.
@@ -35,7 +39,12 @@ func MultiNewick(ms []*ref.Node, l Layout) string {
 	var b strings.Builder
 	for i, m := range ms {
 		s := ref.Write(m)
-		if l.BreakAfterComma {
+		if l.ENum {
+			s = ref.WriteStyled(m, ref.Style{ENum: true})
+		}
+		if l.BreakAfterComma && l.AfterTips {
+			s = ref.WriteStyled(m, ref.Style{NL: nl, Every: 2, AfterTips: true, Indent: " ", ENum: l.ENum})
+		} else if l.BreakAfterComma {
 			// break after at most every third comma that is outside brackets
 			var o strings.Builder
 			depth, k := 0, 0
